@@ -15,11 +15,12 @@ open Reduino.Lang.EC
 /-- (1) non-interference: a successful evaluation never consulted a non-whitelisted node -/
 theorem eval_noninterference (env : Env) (e : PExpr) (v : Val) (hok : eval env e = .ok v) :
     ∀ h : String → Except Err Val, evalH h env e = .ok v := by
-  sorry
+  intro h
+  exact Reduino.Lemmas.C11.ni_eval h env e v hok
 
 /-- a non-whitelisted node evaluated directly is a ValueError — it is never executed -/
 theorem forbidden_raises (env : Env) (k : String) : eval env (.forbidden k) = .error .value := by
-  sorry
+  simp only [eval, evalH]
 
 /-- … also as an operand of every strict construct -/
 theorem forbidden_operand_raises (env : Env) (k : String) (op : BinOp) (u : UnOp) (a : PExpr) (args : List PExpr) :
@@ -28,18 +29,30 @@ theorem forbidden_operand_raises (env : Env) (k : String) (op : BinOp) (u : UnOp
     eval env (.compare (.forbidden k) [(.lt, a)]) = .error .value ∧
     eval env (.seq false (.forbidden k :: args)) = .error .value ∧
     eval env (.call "len" [.forbidden k]) = .error .value := by
-  sorry
+  refine ⟨?_, ?_, ?_, ?_, ?_⟩
+  · simp only [eval, evalH]; rfl
+  · simp only [eval, evalH]; rfl
+  · simp only [eval, evalH]; rfl
+  · simp only [eval, evalH, evalListH]; rfl
+  · simp only [eval, evalH]; rfl
 
 /-- only the documented builtins are callable -/
 theorem unknown_call_raises (env : Env) (f : String) (args : List PExpr)
     (hf : f ∉ ["len", "abs", "int", "bool", "str", "max", "min"]) : eval env (.call f args) = .error .value := by
-  sorry
+  simp only [List.mem_cons, List.not_mem_nil, or_false, not_or] at hf
+  obtain ⟨h1, h2, h3, h4, h5, h6, h7⟩ := hf
+  unfold eval
+  match args with
+  | [] => rw [evalH]; simp [h1, h2, h3, h4, h5, h6, h7]
+  | [a] => rw [evalH]; simp [h1, h2, h3, h4, h5, h6, h7]
+  | a :: b :: r =>
+    rw [evalH.eq_12 _ _ _ _ (by simp) (by simp)]; simp [h1, h2, h3, h4, h5, h6, h7]
 
 /-- (2) names are looked up in the constant environment only; unknown or non-constant names are a ValueError -/
 theorem name_lookup (env : Env) (x : String) :
     (env.lookup x = none → eval env (.name x) = .error .value) ∧
     (env.lookup x = some none → eval env (.name x) = .error .value) := by
-  sorry
+  constructor <;> intro hl <;> simp only [eval, evalH, hl]
 
 /-- (3) structural size bound for expressions without `**` and `<<` -/
 def powFree : PExpr → Bool
@@ -68,20 +81,109 @@ def bound (m : Nat) : PExpr → Nat
   | .un _ a => bound m a + 1
   | _ => 1
 
-theorem eval_size_bound (env : Env) (e : PExpr) (n : Int) (m : Nat)
+/- NOTE: the size bound needs `1 ≤ m` (a bool-valued name counts as 1): without it the claim is false, see
+   `eval_size_bound_counterexample`; the corrected statement is `eval_size_bound_of_one_le` below. (original remark:
+   for the author.  With the side condition `1 ≤ m` announced in the docstring of `bound` it is proved below
+   (`eval_size_bound_of_one_le`, via the stronger `eval_size_bound_num`). -/
+
+/-- COUNTEREXAMPLE to `eval_size_bound` as stated (`m = 0`): a bool-valued name counts as 1 but is bounded by `m = 0` -/
+theorem eval_size_bound_counterexample :
+    let env : Env := [("x", some (.bool true))]
+    let e : PExpr := .bin .add (.name "x") (.name "x")
+    powFree e = true ∧ (∀ x k, env.lookup x = some (some (.int k)) → k.natAbs ≤ 0) ∧
+    eval env e = .ok (.int 2) ∧ ¬ ((2 : Int).natAbs ≤ max (bound 0 e) 1) := by
+  refine ⟨by simp [powFree], ?_, ?_, by simp [bound]⟩
+  · intro x k h
+    simp only [List.lookup] at h
+    split at h <;> simp at h
+  · simp only [eval, evalH]; rfl
+
+/-- the size bound with the (docstring's) side condition `1 ≤ m`, for every numeric result (int or bool) -/
+theorem eval_size_bound_num (env : Env) (m : Nat) (hm : 1 ≤ m)
+    (henv : ∀ x k, env.lookup x = some (some (.int k)) → k.natAbs ≤ m) :
+    ∀ (e : PExpr) (v : Val) (k : Int), powFree e = true → eval env e = .ok v → v.num? = some k →
+      k.natAbs ≤ bound m e
+  | .const c, v, k, _, h, hk => by
+    simp only [eval, evalH] at h
+    cases h
+    cases c with
+    | int n => simp only [Val.num?, Option.some.injEq] at hk; subst hk; simp [bound]
+    | bool b => have := Reduino.Lemmas.C11.num?_natAbs_bool hk; simpa [bound] using this
+    | str s => simp [Val.num?] at hk
+    | list t vs => simp [Val.num?] at hk
+  | .name x, v, k, _, h, hk => by
+    simp only [eval, evalH] at h
+    simp only [bound]
+    split at h
+    · rename_i w hl
+      split at h
+      · cases h
+      · cases h
+        cases v with
+        | int n => simp only [Val.num?, Option.some.injEq] at hk; subst hk; exact henv x n hl
+        | bool b => have := Reduino.Lemmas.C11.num?_natAbs_bool hk; omega
+        | str s => simp [Val.num?] at hk
+        | list t vs => simp [Val.num?] at hk
+    · cases h
+  | .bin op a b, v, k, hp, h, hk => by
+    simp only [powFree, Bool.and_eq_true, ne_eq, decide_eq_true_eq] at hp
+    obtain ⟨⟨⟨h1, h2⟩, hpa⟩, hpb⟩ := hp
+    simp only [eval] at h; rw [evalH] at h
+    obtain ⟨va, hva, h⟩ := Reduino.Lemmas.C11.bind_eq_ok h
+    obtain ⟨vb, hvb, h⟩ := Reduino.Lemmas.C11.bind_eq_ok h
+    obtain ⟨x, y, hx, hy, hb⟩ := Reduino.Lemmas.C11.applyBin_bound h hk h1 h2
+    have iha := eval_size_bound_num env m hm henv a va x hpa hva hx
+    have ihb := eval_size_bound_num env m hm henv b vb y hpb hvb hy
+    cases op
+    · simp only [bound] at hb ⊢; omega
+    · simp only [bound] at hb ⊢; omega
+    · simp only [bound] at hb ⊢; exact Nat.le_trans hb (Nat.mul_le_mul iha ihb)
+    · simp only [bound] at hb ⊢; omega
+    · simp only [bound] at hb ⊢; omega
+    · exact absurd rfl h1
+    · exact absurd rfl h2
+    · simp only [bound] at hb ⊢; omega
+  | .un op a, v, k, hp, h, hk => by
+    simp only [powFree] at hp
+    simp only [eval] at h; rw [evalH] at h
+    obtain ⟨va, hva, h⟩ := Reduino.Lemmas.C11.bind_eq_ok h
+    simp only [bound]
+    cases op
+    · cases h
+      have := eval_size_bound_num env m hm henv a _ k hp hva hk; omega
+    · simp only at h
+      split at h
+      · rename_i n hn
+        cases h
+        simp only [Val.num?, Option.some.injEq] at hk; subst hk
+        have := eval_size_bound_num env m hm henv a va n hp hva hn; omega
+      · cases h
+    · cases h
+      have := Reduino.Lemmas.C11.num?_natAbs_bool hk; omega
+  | .and _ _, _, _, hp, _, _ => by simp [powFree] at hp
+  | .or _ _, _, _, hp, _, _ => by simp [powFree] at hp
+  | .compare _ _, _, _, hp, _, _ => by simp [powFree] at hp
+  | .ifexp _ _ _, _, _, hp, _, _ => by simp [powFree] at hp
+  | .fstr _, _, _, hp, _, _ => by simp [powFree] at hp
+  | .call _ _, _, _, hp, _, _ => by simp [powFree] at hp
+  | .seq _ _, _, _, hp, _, _ => by simp [powFree] at hp
+  | .forbidden _, _, _, hp, _, _ => by simp [powFree] at hp
+
+/-- `eval_size_bound` with the extra hypothesis `1 ≤ m` -/
+theorem eval_size_bound_of_one_le (env : Env) (e : PExpr) (n : Int) (m : Nat) (hm : 1 ≤ m)
     (hp : powFree e = true) (henv : ∀ x k, env.lookup x = some (some (.int k)) → k.natAbs ≤ m)
     (h : eval env e = .ok (.int n)) :
-    n.natAbs ≤ max (bound m e) 1 := by
-  sorry
+    n.natAbs ≤ max (bound m e) 1 :=
+  Nat.le_trans (eval_size_bound_num env m hm henv e _ n hp h rfl) (Nat.le_max_left _ _)
 
 /-- the same is false with `**`: a 3-node expression already exceeds any such bound (and `9**9**9` does not terminate
     in practice — known finding K11a) -/
 theorem pow_blowup_counterexample :
     eval [] (.bin .pow (.const (.int 9)) (.bin .pow (.const (.int 3)) (.const (.int 2)))) = .ok (.int 387420489) := by
-  sorry
+  simp only [eval, evalH]; rfl
 
 example : eval [("k", some (.int 4))] (.ifexp (.compare (.name "k") [(.lt, .const (.int 5)), (.le, .const (.int 9))])
     (.bin .mul (.name "k") (.const (.int 3))) (.forbidden "Attribute")) = .ok (.int 12) := by
-  sorry
+  simp only [eval, evalH, evalChainH]; rfl
 
 end Reduino.Props.C11
